@@ -213,6 +213,7 @@ func c12Converge(witness bool) {
 				nh := c12Idx(ar.NextHop)
 				verif_assert(nh >= 0 && nh < nw.n && nw.link[x][nh], "C12/presence-next-hop-is-not-a-neighbour")
 				verif_assert(c12PathOK(nw, x, ar.NextHop, ar.Path, o), "C12/presence-path-is-not-a-chain-of-links-to-the-origin")
+				verif_assert(int(ar.Metric) == len(ar.Path), "C13/presence-metric-is-not-the-path-length")
 			}
 		}
 		if x == exit {
